@@ -273,7 +273,7 @@ pub fn oracle(ctx: &mut Ctx) {
     let mut st = Stats::default();
     for i in 0..ctx.n {
         let (mut img, info) = gen_himg(&mut rng, 10);
-        if prop == "C14" && rng.chance(1, 2) {
+        if (prop == "C14" || prop == "C08") && rng.chance(1, 2) {
             // gray-valued colour images, so that a grayscale conversion is on the table
             let ct = *rng.choose(&[2u8, 6]);
             let (w, h) = gen_dims(&mut rng, 8);
@@ -327,7 +327,7 @@ pub fn oracle(ctx: &mut Ctx) {
         opts.strip = if animated {
             match rng.below(6) { 0 => HStrip::Safe, 1 => HStrip::All, 2 => HStrip::Strip(vec![*b"acTL", *b"fcTL", *b"fdAT"]), _ => HStrip::None }
         } else { gen_strip(&mut rng, &enc) };
-        if prop == "C14" { opts.scale_16 = false; }
+        if prop == "C14" || prop == "C08" { opts.scale_16 = false; }
         enc.fixed_filter = None;
         let case = Case { img: img.clone(), class: format!("{}{}", info.class, if animated { " apng" } else { "" }), enc, input, opts };
         st.count("cases");
@@ -372,6 +372,9 @@ pub fn oracle(ctx: &mut Ctx) {
             "C07" => judge_c07(&case, &inp, &dec, &mut st),
             "C14" => judge_c14(&case, &inp, &dec, &mut st),
             "C10" => judge_c10(&case, &inp, &dec, &mut st),
+            // the switch predicates of C08 on files that carry colour-space metadata (the pre-pass derives
+            // its own permissions from them: it may only take permissions away)
+            "C08" => crate::e2e::judge("C08", &case, &Outcome::Ok(bytes.clone()), &mut st),
             "C02" => {
                 if !dec.violations.is_empty() {
                     st.fail("invalid-output", format!("{:?}", dec.violations), case.replay_json());
